@@ -139,6 +139,32 @@ def parseReqOuts (kind : String) (s : String) : Option (List Out) :=
 def dedupOuts (os : List Out) : List Out :=
   os.foldl (fun acc o => acc.filter (fun x => x.addr ≠ o.addr) ++ [o]) []
 
+/-- TxStore.ExistsTx: the mined transaction holding the outpoint (unspent index of the current wallet,
+    else any credit record with that hash and index), re-read from the chain and checked by hash -/
+def existsMsgTx (st : St) (w : Wid) (i : TxId × Nat) : Option (Tx × BlockMeta) :=
+  let s := st.led.store
+  let blk : Option BlockMeta :=
+    match AMap.get s.unspent (w, i.1, i.2) with
+    | some b => some b
+    | none => (s.credits.find? (fun e => e.1.tx = i.1 ∧ e.1.idx = i.2)).map (·.1.blk)
+  match blk with
+  | none => none
+  | some b =>
+    match AMap.get s.txrecs (i.1, b) with
+    | none => none
+    | some loc =>
+      match st.led.node.txByLoc b.height loc with
+      | some tx => if tx.id = i.1 then some (tx, b) else none
+      | none => none
+
+/-- estimateSignedSize / addTxIn look the selected coin up again through existsMsgTx -/
+def resolvable (st : St) (w : Wid) (c : Model.Select.Coin) : Bool :=
+  match c.id.splitOn ":" with
+  | [t, i] => match i.toNat? with
+    | some n => (existsMsgTx st w (t, n)).isSome
+    | none => false
+  | _ => false
+
 structure AutoReq where
   w : Wid
   fee : Nat
@@ -157,7 +183,7 @@ def autoModel (st : St) (r : AutoReq) : Except Model.Fee.Err AutoRes := do
       if o.amt = 0 ∨ o.amt > maxAmount then throw .amount
       if f < st.minFrozen ∨ f > 0xfffe then throw (.other)        -- txscript.ErrFrozenPeriod
     | _ => if o.amt = 0 then throw .amount
-  autoConstruct { coins := eligibleCoins st r.w addrs } (r.outs.map (·.amt)) r.payloadLen r.fee
+  autoConstruct { coins := eligibleCoins st r.w addrs, resolvable := resolvable st r.w } (r.outs.map (·.amt)) r.payloadLen r.fee
     ((r.chg).getD "")
 
 def frozenErr (st : St) (r : AutoReq) : Bool :=
@@ -165,6 +191,9 @@ def frozenErr (st : St) (r : AutoReq) : Bool :=
 
 def errTok (st : St) (r : AutoReq) (e : Model.Fee.Err) : String :=
   if e = .other && frozenErr st r then "err:frozen" else e.tok
+
+/-- convertResponseError: the API keeps only a few wallet error classes apart -/
+def apiTok (t : String) : String := Spec.TxBuild.apiCollapse t
 
 def specReq (kind : Spec.TxBuild.Kind) (r : AutoReq) : Spec.TxBuild.Req :=
   { kind := kind, wallet := r.w, sender := r.sender, chg := r.chg, userFee := r.fee, payloadLen := r.payloadLen, outs := r.outs }
@@ -174,7 +203,7 @@ def autoStep (st : St) (kind : Spec.TxBuild.Kind) (r : AutoReq) (reserve : Bool)
   let st := { st with lastReq := some (specReq kind r) }
   if !st.led.wallets.contains r.w then (st, "bad-op") else
   match autoModel st r with
-  | .error e => (st, errTok st r e)
+  | .error e => (st, if kind.isApi then apiTok (errTok st r e) else errTok st r e)
   | .ok res =>
     let ids := res.ins.map (·.id)
     if kind.isApi && decide (res.fee > maxFee) then
@@ -192,24 +221,6 @@ def parseIns (s : String) : Option (List (TxId × Nat)) :=
     match p.splitOn ":" with
     | [t, i] => i.toNat?.map (fun n => (t, n))
     | _ => none)
-
-/-- TxStore.ExistsTx: the mined transaction holding the outpoint (unspent index of the current wallet,
-    else any credit record with that hash and index), re-read from the chain and checked by hash -/
-def existsMsgTx (st : St) (w : Wid) (i : TxId × Nat) : Option (Tx × BlockMeta) :=
-  let s := st.led.store
-  let blk : Option BlockMeta :=
-    match AMap.get s.unspent (w, i.1, i.2) with
-    | some b => some b
-    | none => (s.credits.find? (fun e => e.1.tx = i.1 ∧ e.1.idx = i.2)).map (·.1.blk)
-  match blk with
-  | none => none
-  | some b =>
-    match AMap.get s.txrecs (i.1, b) with
-    | none => none
-    | some loc =>
-      match st.led.node.txByLoc b.height loc with
-      | some tx => if tx.id = i.1 then some (tx, b) else none
-      | none => none
 
 structure ManReq where
   w : Wid
@@ -253,7 +264,7 @@ def manualStep (st : St) (api : Bool) (r : ManReq) : St × String :=
   if !st.led.wallets.contains r.w then (st, "bad-op") else
   if api && (r.ins.isEmpty || r.outs.isEmpty) then (st, "err:other") else     -- checkNotEmpty
   match manualModel st r with
-  | .error e => (st, e.tok)
+  | .error e => (st, if api then apiTok e.tok else e.tok)
   | .ok (res, chgAddr) =>
     let ids := r.ins.map (fun i => s!"{i.1}:{i.2}")
     let amts := r.ins.filterMap (fun i =>
@@ -272,7 +283,8 @@ def manualStep (st : St) (api : Bool) (r : ManReq) : St × String :=
 
 def specView (st : St) : Spec.TxBuild.View :=
   { p := st.led.p, minFrozen := st.minFrozen, own := st.led.own, chain := st.led.specChain, txs := st.led.txs,
-    pendingSpent := st.led.store.pendIns.map (·.1), reserved := st.sReserved, k := kStd, maxFee := maxFee }
+    pendingSpent := st.led.store.pendIns.map (·.1), reserved := st.sReserved, k := kStd, maxFee := maxFee,
+    stale := st.led.specChain.map (·.id) != st.led.node.chain.map (·.id) }
 
 def parseJIns (s : String) : Option (List (TxId × Nat)) :=
   (Led.parseList s).mapM (fun p =>
@@ -373,7 +385,9 @@ def step (st : St) (args : List String) : St × String :=
     if !(nameKnown st sender || sender = "-") || !st.led.wallets.contains w then (st, "bad-op") else
     let m := match prepareFrom st w (optName sender) with
       | .error e => e.tok
-      | .ok addrs => joinSorted ((eligibleCoins st w addrs).map (fun c => s!"{c.id}:{c.amt}"))
+      | .ok addrs =>
+        let cs := eligibleCoins st w addrs
+        if cs.length ≥ kStd then "many" else joinSorted (cs.map (fun c => s!"{c.id}:{c.amt}"))
     -- spec: eligibility from the chain ledger (reservations as the model has them)
     let rs : List Spec.TxBuild.OutPt := st.reserved.filterMap (fun (id : String) =>
       match id.splitOn ":" with | [t, i] => i.toNat?.map (fun n => (t, n)) | _ => none)
@@ -381,7 +395,8 @@ def step (st : St) (args : List String) : St × String :=
     let senderOk : Bool := match optName sender with
       | some a => (AMap.get st.led.own a).map (fun (e : Wid × Bool) => e.1) == some w
       | none => !(walletAddrs st w).isEmpty
-    let sp := if senderOk then joinSorted ((Spec.TxBuild.eligible v w (optName sender)).map (fun (c : Spec.Chain.SCoin) => s!"{c.tx}:{c.idx}:{c.amt}"))
+    let se := Spec.TxBuild.eligible v w (optName sender)
+    let sp := if senderOk then (if se.length ≥ kStd then "many" else joinSorted (se.map (fun (c : Spec.Chain.SCoin) => s!"{c.tx}:{c.idx}:{c.amt}")))
               else "err:noaddr"
     (st, m ++ "\t" ++ sp)
   | ["find", w, sender, amount] =>
